@@ -14,6 +14,7 @@ pub fn generate(rng: &mut Rng, tier: Tier, stats: &mut GenStats) -> Scenario {
     let mut g = Gen::new(rng, tier);
     let links = if g.rng.chance(3, 10) { LinkMode::Safe } else { LinkMode::None };
     g.link_base_pct = 25;
+    g.foreign_pct = 10;
     let tree = g.tree(links);
     let model = Model::from_tree(&tree).unwrap();
     let cwd = g.pick_dir(&model, 40);
